@@ -799,10 +799,34 @@ def m_map_new(ex, site, a):
 @model(rx(r'^(BTreeMap|HashMap|DashMap)::insert$'))
 def m_map_insert(ex, site, a):
     items, ty = map_items(ex, a[0])
+    if ty == 'DashMap': dash_write(ex, items, 'insert')
     i, found = map_find(ex, items, a[1], ty == 'BTreeMap')
     if found:
         old = items[i].fields[1]; items[i].fields[1] = a[2]; return some(old)
     items.insert(i, tup(a[1], a[2])); return none()
+
+
+def dash_write(ex, items, what):
+    """dashmap: a write (insert / remove / get_mut) takes the shard's write lock; doing so while this thread still holds a read
+    guard (a `Ref` from get) of the same map deadlocks whenever both keys live in the same shard - which the hash decides, so
+    it is treated as possible"""
+    g = ex.side.get('dash_guards')
+    if g is None: return
+    live = [k for k, m in g.items() if m is items]
+    if live:
+        raise Panic('deadlock', 'DashMap::%s while a read guard of the same map is alive (self-deadlock when the keys share a shard)' % what, ex.where())
+
+
+def dash_guard(ex, items, guard):
+    g = ex.side.get('dash_guards')
+    if g is not None: g[id(guard)] = items; ex.side.setdefault('dash_keep', []).append(guard)
+
+
+def dash_release(ex, v):
+    g = ex.side.get('dash_guards')
+    if g is not None and isinstance(v, Agg):
+        if v.ty == 'dashmap::Ref': g.pop(id(v), None)
+        elif v.ty == 'Option' and v.variant == 1: dash_release(ex, v.fields[0])
 
 
 @model(rx(r'^(BTreeSet|HashSet)::insert$'))
@@ -820,11 +844,14 @@ def m_map_get(ex, site, a):
     i, found = map_find(ex, items, a[1], ty.startswith('BTree'))
     me = site.method
     if me in ('contains_key', 'contains'): return found
+    if ty == 'DashMap' and me in ('remove', 'get_mut'): dash_write(ex, items, me)
     if me == 'remove':
         if not found: return none() if 'Map' in ty else False
         kv = items.pop(i); return some(kv.fields[1]) if 'Map' in ty else True
     if not found: return none()
-    if ty == 'DashMap': return some(Agg('dashmap::Ref', 0, [items[i].fields[0], items[i].fields[1]]))
+    if ty == 'DashMap':
+        gd = Agg('dashmap::Ref', 0, [items[i].fields[0], items[i].fields[1]]); dash_guard(ex, items, gd)
+        return some(gd)
     return some(Ptr(Cell(items[i]), (1 if 'Map' in ty else 0,)))
 
 
